@@ -15,6 +15,8 @@ import (
 	"time"
 
 	"github.com/hashicorp/consul/agent/consul/fsm"
+	"github.com/hashicorp/consul/agent/structs"
+	"github.com/hashicorp/consul/api"
 	"github.com/hashicorp/consul/internal/verifmc/cmdlib"
 	"github.com/hashicorp/consul/internal/verifmc/e1"
 	"github.com/hashicorp/consul/internal/verifmc/ev"
@@ -107,7 +109,7 @@ func Run(c *ev.Ctx) {
 			childOut = f.Name()
 			f.Close()
 			cmd = exec.Command(os.Args[0], "-id", "C01", "-tier", c.Tier)
-			cmd.Env = append(os.Environ(), "VERIF_C01_CHILD="+childOut, "VERIF_CLOCK_OFFSET=1000h", "VERIF_NO_EVIDENCE=1", "VERIF_EPOCH="+os.Getenv("VERIF_EPOCH"))
+			cmd.Env = append(os.Environ(), "VERIF_C01_CHILD="+childOut, "VERIF_CLOCK_OFFSET=1000h", "VERIF_CLOCK_STEP=1h", "VERIF_NO_EVIDENCE=1", "VERIF_EPOCH="+os.Getenv("VERIF_EPOCH"))
 			cmd.Stdout, cmd.Stderr = nil, os.Stderr
 			if err := cmd.Start(); err != nil {
 				cmd = nil
@@ -126,6 +128,19 @@ func Run(c *ev.Ctx) {
 			// the past for the one whose clock runs 1000 h ahead
 			alpha = append(alpha, cmdlib.TokenSetReplicated("t3", 500*time.Hour), cmdlib.TokenSetReplicated("t1", 24*time.Hour))
 		}
+		if ph.name == "catalog-kv-session-txn" {
+			// a lock whose holder had a lock delay: after the holder ends, acquiring the key again is refused for a while
+			// by the leader's endpoint only; the delay table is wall-clock and never replicated, so no committed command
+			// may consult it (the second-process replica applies every entry one hour after the previous one)
+			alpha = append(alpha, cmdlib.SessionDestroy("s9"),
+				cmdlib.KVSpec{Verb: api.KVLock, Key: "ld", Val: "x", Sess: "s1"}.Op(),
+				cmdlib.Txn(cmdlib.KVSpec{Verb: api.KVLock, Key: "ld", Val: "x", Sess: "s1"}.TxnOp()),
+				cmdlib.Txn(cmdlib.TxnSessionDelete("s9"), cmdlib.KVSpec{Verb: api.KVLock, Key: "ld", Val: "x", Sess: "s1"}.TxnOp()))
+		}
+		if ph.name == "catalog-kv-session-txn" || ph.name == "full-d1" {
+			// one batch that names the same node twice, in different case
+			alpha = append(alpha, cmdlib.CoordinateBatch([]string{"n1", "N1"}, []float64{0.25, 0.75}), cmdlib.CoordinateBatch([]string{"N1", "n1", "n2"}, []float64{0.5, 0.125, 1}))
+		}
 		if ph.name == "config-catalog" {
 			// a resolver with several cross-datacenter failover entries, for a service that gets peer-exported
 			alpha = append(alpha, cmdlib.Resolver("web", cmdlib.ResolverOpt{Subsets: []string{"v1", "v2", "v3"}, FailoverBySubset: map[string][]string{"v1": {"dc2"}, "v2": {"dc3"}, "v3": {"dc4"}}}).Upsert())
@@ -133,6 +148,12 @@ func Run(c *ev.Ctx) {
 		var seeds [][]world.Op
 		for _, s := range ph.seeds {
 			seeds = append(seeds, seedsAll[s])
+		}
+		if ph.name == "catalog-kv-session-txn" {
+			ld := append(append([]world.Op{}, seedsAll["catalog+session"]...),
+				cmdlib.SessionSpec{Name: "s9", Node: "n1", Behavior: structs.SessionKeysRelease, LockDelay: 15}.Create(),
+				cmdlib.KVSpec{Verb: api.KVLock, Key: "ld", Val: "x", Sess: "s9"}.Op())
+			seeds = append(seeds, ld)
 		}
 		cfg := &e1.Config{Ctx: c, Seeds: seeds, Alphabet: alpha, MaxDepth: ph.depth, New: newWorld, AuditMerges: 20, MaxStates: 400000}
 		if quick {
@@ -231,7 +252,7 @@ func Run(c *ev.Ctx) {
 	c.Set("cross_process_transitions_compared", compared)
 	c.Set("cross_process_transitions_missing", missing)
 	c.Set("clock_offset_of_second_process", "1000h")
-	c.Set("rule", "BFS over every registered command type (accepted and rejected variants); after every transition the command result and the full 36-table dump plus resource store of N in-process replicas (fresh replays) and one replica in a second OS process whose clock runs 1000h ahead must be byte-identical")
+	c.Set("rule", "BFS over every registered command type (accepted and rejected variants); after every transition the command result and the full 36-table dump plus resource store of N in-process replicas (fresh replays) and one replica in a second OS process whose clock runs 1000h ahead and which applies every entry one hour after the previous one must be byte-identical")
 	c.Sample(map[string]any{"phases": phases, "alphabet_size": len(cmdlib.Flatten(groups))})
 	c.Assume("Go map iteration order cannot be enumerated; it is sampled by the N replicas of every transition (this part is amplification, not coverage)")
 	c.Assume("the lock-delay map is deliberately not replicated and is not part of the comparison")
